@@ -50,6 +50,8 @@ def snap(x):
         return ('list', [snap(v) for v in x])
     if isinstance(x, tuple):
         return ('tuple', [snap(v) for v in x])
+    if isinstance(x, (set, frozenset)):
+        return ('set', sorted(repr(snap(v)) for v in x))
     if isinstance(x, (np.floating, float)):
         return ('float', float(x).hex() if x == x else 'nan')
     if callable(x):
